@@ -7,7 +7,7 @@
 //! before every operation, the history so far with that operation observed as `Panic`), and emits that record as the
 //! case: model /= observed and the oracle fails on a named history and operation.
 use falcon::architecture::Endian;
-use falcon::il::{Constant, Expression};
+use falcon::il::{Constant, Expression, Scalar};
 use falcon::memory::Value;
 use falcon::memory::backing;
 use falcon::memory::paged::Memory;
@@ -57,6 +57,8 @@ fn back_coq(b: &backing::Memory, e: &Endian) -> String {
 #[derive(Clone)]
 enum Tree {
     Const(BigUint, usize),
+    /// scalar `s<id>` of the given width (expression stream only)
+    Scalar(u64, usize),
     Bin(&'static str, Box<Tree>, Box<Tree>),
     Zext(usize, Box<Tree>),
 }
@@ -64,6 +66,7 @@ impl Tree {
     fn coq(&self) -> String {
         match self {
             Tree::Const(v, w) => format!("(RConst {} {})", z_big(v), w),
+            Tree::Scalar(id, w) => format!("(RScalar (mks {} {} None))", n_lit(*id), w),
             Tree::Bin(o, a, b) => format!("(RBin {} {} {})", o, a.coq(), b.coq()),
             Tree::Zext(w, a) => format!("(RExt Zext {} {})", w, a.coq()),
         }
@@ -71,6 +74,7 @@ impl Tree {
     fn build(&self) -> Expression {
         match self {
             Tree::Const(v, w) => Expression::constant(Constant::new_big(v.clone(), *w)),
+            Tree::Scalar(id, w) => Expression::scalar(Scalar::new(format!("s{}", id), *w)),
             Tree::Bin(o, a, b) => match *o {
                 "Add" => Expression::add(a.build(), b.build()).unwrap(),
                 "Xor" => Expression::xor(a.build(), b.build()).unwrap(),
@@ -81,12 +85,38 @@ impl Tree {
     }
     fn show(&self) -> String { format!("{}", self.build()) }
 }
-fn gen_tree(r: &mut Rng, w: usize, v: BigUint) -> Tree {
+/// scalar ids: two scalars per width, id = 2*w + j (name "s<id>")
+fn gen_tree(r: &mut Rng, w: usize, v: BigUint, used: &mut std::collections::BTreeSet<(u64, usize)>) -> Tree {
     if w == 0 { return Tree::Const(v, w); }
-    match r.below(10) {
+    let mut sc = |r: &mut Rng| { let id = 2 * w as u64 + r.below(2); used.insert((id, w)); Tree::Scalar(id, w) };
+    match r.below(12) {
         0 | 1 => Tree::Bin(*r.pick(&["Add", "Xor", "And"]), Box::new(Tree::Const(v, w)), Box::new(Tree::Const(r.big(w), w))),
         2 if w > 8 => { let sw = w - 8; Tree::Zext(w, Box::new(Tree::Const(r.big(sw), sw))) }
+        3 => sc(r),
+        4 => { let a = sc(r); Tree::Bin(*r.pick(&["Add", "Xor", "And"]), Box::new(a), Box::new(Tree::Const(v, w))) }
+        5 => { let a = sc(r); let b = sc(r); Tree::Bin(*r.pick(&["Add", "Xor"]), Box::new(a), Box::new(b)) }
         _ => Tree::Const(v, w),
+    }
+}
+/// the value every scalar denotes in this history (a function of the id only, so it is known before the scalar is used)
+fn scalar_value(seed: u64, idx: u64, id: u64, w: usize) -> BigUint {
+    Rng::for_case(seed ^ 0x5ca1a5, idx.wrapping_mul(4099).wrapping_add(id)).big(w)
+}
+/// Gallina `expr` term of an expression (scalars are named s<id>)
+fn expr_coq(e: &Expression) -> String {
+    use Expression::*;
+    let b = |o: &str, l: &Expression, r: &Expression| format!("(EBin {} {} {})", o, expr_coq(l), expr_coq(r));
+    match e {
+        Scalar(s) => format!("(EScalar (mks {} {} {}))", n_lit(s.name().trim_start_matches('s').parse().unwrap()), s.bits(), coq_opt(s.ssa().map(|x| n_lit(x as u64)))),
+        Constant(c) => format!("(EConst (mkc {} {}))", c.bits(), z_big(c.value())),
+        Add(l, r) => b("Add", l, r), Sub(l, r) => b("Sub", l, r), Mul(l, r) => b("Mul", l, r), Divu(l, r) => b("Divu", l, r),
+        Modu(l, r) => b("Modu", l, r), Divs(l, r) => b("Divs", l, r), Mods(l, r) => b("Mods", l, r), And(l, r) => b("And", l, r),
+        Or(l, r) => b("Or", l, r), Xor(l, r) => b("Xor", l, r), Shl(l, r) => b("Shl", l, r), Shr(l, r) => b("Shr", l, r),
+        AShr(l, r) => b("AShr", l, r), Cmpeq(l, r) => b("Cmpeq", l, r), Cmpneq(l, r) => b("Cmpneq", l, r),
+        Cmplts(l, r) => b("Cmplts", l, r), Cmpltu(l, r) => b("Cmpltu", l, r),
+        Zext(n, x) => format!("(EExt Zext {} {})", n, expr_coq(x)), Sext(n, x) => format!("(EExt Sext {} {})", n, expr_coq(x)),
+        Trun(n, x) => format!("(EExt Trun {} {})", n, expr_coq(x)),
+        Ite(c, t, f) => format!("(EIte {} {} {})", expr_coq(c), expr_coq(t), expr_coq(f)),
     }
 }
 
@@ -158,12 +188,15 @@ fn hex(v: &BigUint) -> String { format!("0x{:x}", v) }
 struct Stats {
     overlap: u32, cross: u32, wrapped: u32, top: u32, loads_none: u32, loads_some: u32, panicked: bool,
     kinds: std::collections::BTreeSet<&'static str>,
+    used: std::collections::BTreeSet<(u64, usize)>,
 }
-struct Hdr { expr_mode: bool, endian: Endian, table: String, b0: Option<usize>, has_backing: bool, malformed: bool }
+struct Hdr { expr_mode: bool, endian: Endian, table: String, b0: Option<usize>, has_backing: bool, malformed: bool, seed: u64, idx: u64 }
 
 fn finish(h: &Hdr, coq_ops: &[String], descr: &str, st: &Stats, aborted: bool) -> Case {
-    let body = format!("{} {} {} {}", e_coq(&h.endian), h.table, coq_opt(h.b0.map(|i| format!("{}%nat", i))), coq_list(coq_ops.iter().cloned()));
-    let coq = if h.expr_mode { format!("KE {}", body) } else { format!("KC (KHist {})", body) };
+    let val = coq_list(st.used.iter().map(|(id, w)| format!("(mks {} {} None, mkc {} {})", n_lit(*id), w, w, z_big(&scalar_value(h.seed, h.idx, *id, *w)))));
+    let pre = format!("{} {} {}", e_coq(&h.endian), h.table, coq_opt(h.b0.map(|i| format!("{}%nat", i))));
+    let ops = coq_list(coq_ops.iter().cloned());
+    let coq = if h.expr_mode { format!("KE {} {} {}", pre, val, ops) } else { format!("KC (KHist {} {})", pre, ops) };
     let mut tags = vec![format!("value:{}", if h.expr_mode { "Expression" } else { "Constant" }), format!("endian:{}", e_coq(&h.endian)), format!("backing:{}", h.has_backing), format!("ops:{}", (coq_ops.len() / 10) * 10)];
     for k in &st.kinds { tags.push(format!("has:{}", k)); }
     if st.overlap > 0 { tags.push("has:overlapping-store".into()); }
@@ -172,6 +205,7 @@ fn finish(h: &Hdr, coq_ops: &[String], descr: &str, st: &Stats, aborted: bool) -
     if st.top > 0 { tags.push("has:store-ending-at-top".into()); }
     if st.loads_none > 0 { tags.push("has:load-none".into()); }
     if st.loads_some > 0 { tags.push("has:load-some".into()); }
+    if !st.used.is_empty() { tags.push("has:scalars".into()); }
     if st.panicked { tags.push("res:panic".into()); }
     if aborted { tags.push("res:process-died".into()); }
     tags.push(if h.malformed { "stream:malformed".into() } else { "stream:valid".into() });
@@ -189,7 +223,8 @@ fn abort_text(op: &Op, expr_mode: bool) -> (String, String) {
                       else { match t { Tree::Const(v, w) => { let c = Constant::new_big(v.clone(), *w); format!("OStore {} {} {} {}", h, a, c.bits(), z_big(c.value())) } _ => unreachable!() } };
             (format!("({}, BUnit Panic)", lhs), format!("h{}.store(0x{:x},{})=PROCESS-DIED", h, a, t.show()))
         }
-        Op::Load(h, a, w) => (format!("({}, BLoad Panic)", wrap(format!("OLoad {} {} {}", h, a, w))), format!("h{}.load(0x{:x},{})=PROCESS-DIED", h, a, w)),
+        Op::Load(h, a, w) => (if expr_mode { format!("(ELoadX {} {} {} Panic, BLoad Panic)", h, a, w) } else { format!("(OLoad {} {} {}, BLoad Panic)", h, a, w) },
+                              format!("h{}.load(0x{:x},{})=PROCESS-DIED", h, a, w)),
         Op::Clone(s, d) => (format!("({}, BUnit Panic)", wrap(format!("OClone {} {}", s, d))), format!("h{}=h{}.clone() PROCESS-DIED", d, s)),
         Op::New(h, e, b) => (format!("({}, BUnit Panic)", wrap(format!("ONew {} {} {}", h, e_coq(e), coq_opt(b.map(|i| format!("{}%nat", i)))))), format!("h{}=new() PROCESS-DIED", h)),
         Op::SetPerm(h, a, len, p) => (format!("({}, BUnit Panic)", wrap(format!("OSetPerm {} {} {} {}", h, a, len, p))), format!("h{}.set_permissions(0x{:x},{},{})=PROCESS-DIED", h, a, len, p)),
@@ -201,7 +236,7 @@ fn abort_text(op: &Op, expr_mode: bool) -> (String, String) {
 /// one history over three handles of Memory<V>.  `mk` builds the stored value from its tree,
 /// `ev` turns a loaded value into the constant it denotes (identity / executor::eval).
 fn gen_case_v<V: Value>(seed: u64, idx: u64, expr_mode: bool, mk: &dyn Fn(&Tree) -> V,
-                        ev: &dyn Fn(&V) -> Result<Constant, falcon::Error>, trace: Option<&dyn Fn(&Case)>) -> Case {
+                        ev: &dyn Fn(&V) -> Result<Constant, falcon::Error>, shape: &dyn Fn(&V) -> String, trace: Option<&dyn Fn(&Case)>) -> Case {
     let mut rng = Rng::for_case(seed, idx);
     let r = &mut rng;
     let endian = if r.chance(1, 2) { Endian::Little } else { Endian::Big };
@@ -228,7 +263,7 @@ fn gen_case_v<V: Value>(seed: u64, idx: u64, expr_mode: bool, mk: &dyn Fn(&Tree)
     let mut ranges: Vec<Vec<(u128, u128)>> = vec![vec![], vec![], vec![]];
     let mut st = Stats::default();
     let table = coq_list(built.iter().zip(backs.iter()).map(|(b, s)| back_coq(b, &s.endian)));
-    let hdr = Hdr { expr_mode, endian: endian.clone(), table, b0, has_backing, malformed: malformed_history };
+    let hdr = Hdr { expr_mode, endian: endian.clone(), table, b0, has_backing, malformed: malformed_history, seed, idx };
     let mut coq_ops: Vec<String> = vec![];
     let mut descr = format!("{}{} backing={}", if expr_mode { "V=Expression " } else { "" }, e_coq(&endian), if has_backing { "yes" } else { "no" });
     let wrap_other = |s: String| -> String { if expr_mode { format!("EOther ({})", s) } else { s } };
@@ -241,7 +276,7 @@ fn gen_case_v<V: Value>(seed: u64, idx: u64, expr_mode: bool, mk: &dyn Fn(&Tree)
             // near the top of the address space: one store in three ends exactly at 2^64
             if a > TOP - 64 && w >= 8 && r.chance(1, 3) { a = TOP - (w as u64 / 8) + 1; }
             let v = match r.below(6) { 0 => BigUint::from(0u32), 1 => (BigUint::from(1u32) << w) - BigUint::from(1u32), _ => r.big(w) };
-            let t = if expr_mode { gen_tree(r, w, v) } else { Tree::Const(v, w) };
+            let t = if expr_mode { gen_tree(r, w, v, &mut st.used) } else { Tree::Const(v, w) };
             Op::Store(h, a, t, w)
         } else if k < 75 {
             let w = if malformed_history && r.chance(1, 4) { *r.pick(&BAD_WIDTHS) } else { *r.pick(&WIDTHS) };
@@ -290,11 +325,19 @@ fn gen_case_v<V: Value>(seed: u64, idx: u64, expr_mode: bool, mk: &dyn Fn(&Tree)
             }
             Op::Load(h, a, w) => {
                 st.kinds.insert("load");
-                let o = observe(|| match hs[h].load(a, w)? { Some(x) => Ok(Some(ev(&x)?)), None => Ok(None) });
+                // the value the implementation returned (its tree, in the expression stream), then what it denotes
+                let raw = observe(|| hs[h].load(a, w));
+                let o: Obs<Option<Constant>> = match &raw {
+                    Obs::Ok(Some(x)) => observe(|| Ok(Some(ev(x)?))),
+                    Obs::Ok(None) => Obs::Ok(None),
+                    Obs::Err(k) => Obs::Err(k),
+                    Obs::Panic => Obs::Panic,
+                };
                 match &o { Obs::Ok(None) => st.loads_none += 1, Obs::Ok(Some(_)) => st.loads_some += 1, _ => {} }
                 let show = match &o { Obs::Ok(Some(c)) => format!("{}:{}", hex(c.value()), c.bits()), Obs::Ok(None) => "None".into(), x => x.kind() };
-                (format!("({}, BLoad {})", wrap_other(format!("OLoad {} {} {}", h, a, w)), o.coq(|x| coq_opt(x.as_ref().map(|c| format!("(mkc {} {})", c.bits(), z_big(c.value())))))),
-                 format!("h{}.load(0x{:x},{})={}", h, a, w, show), matches!(o, Obs::Panic))
+                let lhs = if expr_mode { format!("ELoadX {} {} {} {}", h, a, w, raw.coq(|x| coq_opt(x.as_ref().map(|v| shape(v))))) } else { format!("OLoad {} {} {}", h, a, w) };
+                (format!("({}, BLoad {})", lhs, o.coq(|x| coq_opt(x.as_ref().map(|c| format!("(mkc {} {})", c.bits(), z_big(c.value())))))),
+                 format!("h{}.load(0x{:x},{})={}", h, a, w, show), matches!(o, Obs::Panic) || matches!(raw, Obs::Panic))
             }
             Op::Clone(s, d) => {
                 st.kinds.insert("clone");
@@ -342,11 +385,20 @@ fn gen_case_v<V: Value>(seed: u64, idx: u64, expr_mode: bool, mk: &dyn Fn(&Tree)
 /// three histories in four over Memory<il::Constant>, one in four over Memory<il::Expression>
 fn gen_case(seed: u64, idx: u64, trace: Option<&dyn Fn(&Case)>) -> Case {
     if idx % 4 == 3 {
-        gen_case_v::<Expression>(seed, idx, true, &|t| t.build(), &|x| falcon::executor::eval(x), trace)
+        // the denotation of a loaded expression: substitute the history's valuation for every scalar, then eval
+        let ev = |x: &Expression| -> Result<Constant, falcon::Error> {
+            let mut e = x.clone();
+            for s in x.scalars() {
+                let id: u64 = s.name().trim_start_matches('s').parse().unwrap();
+                e = e.replace_scalar(s, &Expression::constant(Constant::new_big(scalar_value(seed, idx, id, s.bits()), s.bits())))?;
+            }
+            falcon::executor::eval(&e)
+        };
+        gen_case_v::<Expression>(seed, idx, true, &|t| t.build(), &ev, &|x| expr_coq(x), trace)
     } else {
         gen_case_v::<Constant>(seed, idx, false,
             &|t| match t { Tree::Const(v, w) => Constant::new_big(v.clone(), *w), _ => unreachable!() },
-            &|c| Ok(c.clone()), trace)
+            &|c| Ok(c.clone()), &|_| String::new(), trace)
     }
 }
 
